@@ -33,7 +33,7 @@ def write_cfg(path, constants, init, next_, invariants=(), view=None, constraint
 
 def run_traces(ctx, module, constants, traces, init="TInit", next_="TNext",
                invariants=("Accepted",), what="trace validation", timeout=1800, workers=16,
-               extra_data=None, heap="8g"):
+               extra_data=None, heap="4g"):
     """Returns (accepted tids, {tid: (l, clause)} rejected).  tids are 1-based."""
     d = tlc.scratch_dir("trace")
     data = {"traces": traces}
@@ -69,7 +69,7 @@ def run_traces(ctx, module, constants, traces, init="TInit", next_="TNext",
 
 
 def run_records(ctx, module, constants, recs, init="RInit", next_="RNext", invariants=("Judge",),
-                what="record validation", timeout=1800, workers=16, extra_data=None, heap="8g",
+                what="record validation", timeout=1800, workers=16, extra_data=None, heap="4g",
                 chunk=None):
     """One initial state per record; returns {index(1-based): (clause, ...)} of rejected records."""
     bad = {}
